@@ -49,6 +49,12 @@ def messages():
                            'DE55': iso_ref.icc_build(isogen.icc_of_length(999, 5)),
                            'DE72': isogen.text(999, 2, isogen.alphabets('ascii')[0]),
                            'DE111': isogen.text(998, 3, isogen.alphabets('ascii')[0]), 'DE127': 'N' * 3}),
+        # widths beyond 999: FIXED elements carry no length prefix, so nothing limits them
+        'wide': ('WIDE', {'MTI': '1240', 'DE2': isogen.text(1500, 4, isogen.alphabets('ascii')[0]),
+                          'DE3': decimal.Decimal('1234567890123456789012345678901234.56'),
+                          'DE4': isogen.text(1003, 5, isogen.alphabets('ascii')[0]), 'DE5': 'abc',
+                          'DE6': 10 ** 29 + 7, 'DE11': 'xyz', 'DE70': isogen.text(1002, 6, isogen.alphabets('ascii')[0]),
+                          'DE127': 10 ** 59 + 1}),
         'zero_len': ('PKG', {'MTI': '1240', 'DE3': '123456'}),
         'gen': ('GEN3', None),
     }
